@@ -245,3 +245,60 @@ def gen_reconnect(seed, n, prefix="c20rc"):
         c.dump()
         cases.append(c)
     return cases
+
+
+# ---------------------------------------------------------------- cluster configuration path
+def gen_clustercfg(seed, n):
+    """(name, cluster JSON text, program lines): cluster_config.json files with and without a
+    databases key in every spelling encoding/json accepts for the untagged field, values 0/1/2/16/...,
+    other fields varied; then two or three connections on the node: B works in database 0 and never
+    sends SELECT, A sends SELECTs."""
+    import json
+    r = random.Random(seed * 69069 + 1)
+    items = []
+    spellings = [None, "databases", "Databases", "DATABASES", "dataBases", "DataBases"]
+    values = [0, 1, 2, 16, 4, 3, -1, 255]
+    for i in range(n):
+        nodes = r.choice([1, 1, 3])
+        peers = ",".join("http://127.0.0.1:%d" % (16380 + j) for j in range(nodes))
+        cfg = [("IsCluster", True), ("PeerAddrs", peers), ("PeerIDs", ",".join(str(j + 1) for j in range(nodes))),
+               ("NodeID", r.randrange(1, nodes + 1)), ("KVPort", r.choice([6380, 6381, 7000])), ("JoinCluster", r.random() < 0.2)]
+        if r.random() < 0.5:
+            cfg.append(("RaftAddr", r.choice(["", "http://127.0.0.1:16380"])))
+        if r.random() < 0.3:
+            cfg.append((r.choice(["ShardNum", "shardnum"]), r.choice([16, 64, 1024])))
+        if r.random() < 0.2:
+            cfg.append(("Host", "127.0.0.1"))
+        if r.random() < 0.15:
+            cfg.append(("LogLevel", "panic"))
+        # systematic over spellings x values first, random afterwards
+        sp = spellings[i % len(spellings)] if i < len(spellings) * len(values) else r.choice(spellings)
+        val = values[(i // len(spellings)) % len(values)] if i < len(spellings) * len(values) else r.choice(values)
+        if sp is not None:
+            v = val
+            x = r.random()
+            if x < 0.06:
+                v = str(val)              # a string: the file does not parse
+            elif x < 0.1:
+                v = float(val) + 0.5      # not an integer: the file does not parse
+            cfg.insert(r.randrange(len(cfg) + 1), (sp, v))
+            if r.random() < 0.15:         # the key twice, in two spellings
+                cfg.insert(r.randrange(len(cfg) + 1), (r.choice([s for s in spellings if s and s != sp]), r.choice(values)))
+        if r.random() < 0.04:
+            cfg = [(k, v) for k, v in cfg if k != "NodeID"]     # ParseConfigJson panics: no obligation
+        text = "{" + ", ".join("%s: %s" % (json.dumps(k), json.dumps(v)) for k, v in cfg) + "}"
+        if r.random() < 0.03:
+            text = text[:-1]                                      # truncated file
+        A, Bc, Cc = 1, 2, 3
+        prog = [(Bc, [b"set", b"k", b"written-by-B-in-db0"]), (A, [b"select", b"1"]), (Bc, [b"get", b"k"]),
+                (A, [b"set", b"only", b"x"]), (Bc, [b"get", b"only"]), (A, [b"get", b"k"])]
+        for _ in range(r.randrange(0, 8)):
+            c = r.choice([A, Bc, Cc])
+            prog.append((c, r.choice([[b"select", r.choice([b"0", b"1", b"2", b"15", b"16", b"-1", b"x"])], [b"get", b"k"],
+                                      [b"set", r.choice([b"k", b"j"]), b"v%d" % c], [b"exists", b"k", b"j", b"only"], [b"incr", b"n"],
+                                      [b"del", b"j"], [b"select", b"0"]])))
+        prog.append((Bc, [b"get", b"k"]))
+        prog.append((Cc, [b"get", b"k"]))
+        lines = ["C %d 0 %s" % (c, " ".join(gen.hx(a) for a in cmd)) for c, cmd in prog]
+        items.append(("c20cfg_%d_%d" % (seed, i), text, lines))
+    return items
